@@ -39,6 +39,8 @@ ASSUMPTIONS = [
     "with autoflush enabled every ORM SELECT the harness issues is modelled as a flush point; the harness looks objects up through session.identity_map / session.new first so that it knows when a SELECT is issued",
     "'touched' (any attribute event since the last flush, including both ends of a relationship change) is the conservative set the session may legitimately keep alive; only never-touched, unreachable objects are required to be released",
     "scalar columns, one-to-many / many-to-one / many-to-many collections; no mutable column types (C49), no rollback",
+    "a child that was re-parented since the last flush is not deleted in that flush (the unit of work cancels the delete in favour of the new parent's collection change: cascade semantics); "
+    "known finding excluded by construction: deleting an object that has pending attribute changes (pinned replay in findings/C48)",
     "trusted: raw sqlite3 observer connection; the plain-data model in checks/c48.py",
 ]
 
@@ -73,6 +75,8 @@ class _Run:
         self.next_id = {"parent": len(self.parent) + 1, "child": len(self.child) + 1}
         self.classes = set()
         self.nontrivial = False
+        self.excluded = []
+        self.leak_trigger = False
         self._mark_flushed()
 
     # ------------------------------------------------------------ model
@@ -223,6 +227,11 @@ class _Run:
                 continue
             kind, k = ident
             if self.alive(ident):
+                if self.leak_trigger:
+                    raise Violation("C48/weak-ref/kept-alive-through-modified-then-deleted-object",
+                                    f"{where}: {kind}#{k} is unmodified and unreferenced, but stays alive after gc.collect(): an object that had pending changes when it was "
+                                    f"deleted keeps InstanceState._strong_obj after the flush (expire_on_commit={self.case['cfg']['eoc']}) and is reachable from the "
+                                    f"identity map through the parent tracking of its former children")
                 raise Violation("C48/weak-ref/unreferenced-clean-object-kept-alive", f"{where}: {kind}#{k} is unmodified, unreferenced and unreachable from any held/touched object, yet still alive after gc.collect()")
             if identity_key(self.cls(kind), k) in self.sess.identity_map:
                 raise Violation("C48/weak-ref/dead-object-key-in-identity-map", f"{where}: {kind}#{k} was collected but its key is still in session.identity_map")
@@ -302,6 +311,18 @@ class _Run:
             # foreign key is a cascade question (C39), not a referencing one
             self.classes.add("skip-delete-of-parent-with-new-children")
             return
+        if kind == "child" and self.direct["child"][k][0] != self.flushed["child"].get(k, [None])[0]:
+            # re-parented since the last flush: the new parent's pending collection change re-registers the child and cancels
+            # the delete (unit of work 'cancel_delete'); which instruction wins is a cascade question, not a referencing one
+            self.classes.add("skip-delete-of-reparented-child")
+            return
+        if (kind, k) in self.touched:
+            if not self.case.get("pinned"):
+                # known finding: an object that has pending changes when it is deleted keeps its strong self-reference after the
+                # flush (expire_on_commit=False), which keeps its former children alive through their parent tracking
+                self.excluded.append("delete of an object that has pending attribute changes (known finding: strong reference survives the flush)")
+                return
+            self.leak_trigger = True
         self.sess.delete(self.obtain((kind, k)))
         self.deleted.add((kind, k))
         self.touched.add((kind, k))
@@ -328,6 +349,10 @@ class _Run:
             c = self.obtain(("child", ck))
             if c not in coll:
                 coll.append(c)
+            elif old != pk:
+                # the collection was just loaded from rows that do not show the child's own pending many-to-one change yet
+                # (autoflush off): state the intent on the child
+                c.parent = p
             self.classes.add("reparent-collection")
         else:
             c = self.obtain(("child", ck))
@@ -449,6 +474,8 @@ def check(case, ctx):
         try:
             run.go()
         finally:
+            for r in run.excluded:
+                ctx.exclude(r)
             ctx.note(case, run.nontrivial, classes=run.classes)
     finally:
         run.close()
